@@ -418,7 +418,7 @@ pub fn run(ctx: &Ctx) -> i32 {
     ctx.sample(json!({"part": "generated", "spec": format!("{:?}", specs[specs.len() / 2])}));
     ctx.finish(
         "model_checking",
-        "generated buildings over the product outline{rectangle, L, triangle, convex pentagon, U, rectangle with a corner written twice} x storey height x storeys{1,2} x space offset{(0,0),(3,-2) and 1.2 m up} x space azimuth{0,90,30} x global deviation{0,90,180,290,37.5 (3 values in quick)} x window{none, setback 0, 0.2} x shade{none, rectangle vertical / facing down / facing up / sloped, vertices vertical/45/horizontal, a sloped cross with twelve corners} (shade corners compared in their order around the outline) (+ one polygon-defined 30-degree roof per combination), printed as BDL into the cubo.ctehexml wrapper and converted by the real parser + converter: every wall/floor/ceiling corner pushed through to_global_coords_matrix must lie within 1 cm (+1e-4 |coord|) of the corner computed from the BDL conventions, outward normals, areas, window x/y/w/h/setback, shade corners; the overhang / fin shades of a window defined alone and together (each must not depend on the others); rotation covariance for every 5th building and every real project with theta in {15, 90, 123.4, 270, -30} (the turned deviation is written as it comes: above 360 or below 0) (+ one VERIF_SEED-derived angle, labelled sampling): positions turn clockwise by theta, azimuths shift by -theta, areas/volumes/K/n50 unchanged; SPACE-Vn walls of the real projects against the same reference (calibration: max distance reported for spaces without rotation); non-trivial = walls compared",
+        "generated buildings over the product outline{rectangle, L, triangle, convex pentagon, U, rectangle with a corner written twice} x storey height x storeys{1,2} x space offset{(0,0),(3,-2) and 1.2 m up} x space azimuth{0,90,30} x global deviation{0,90,180,290,37.5 (3 values in quick)} x window{none, setback 0, 0.2} x shade{none, rectangle vertical / facing down / facing up / sloped, vertices vertical/45/horizontal, a sloped cross with twelve corners} (shade corners compared in their order around the outline) (+ one polygon-defined 30-degree roof per combination), printed as BDL (every other building with an explicit plus sign on its positive placement numbers) into the cubo.ctehexml wrapper and converted by the real parser + converter: every wall/floor/ceiling corner pushed through to_global_coords_matrix must lie within 1 cm (+1e-4 |coord|) of the corner computed from the BDL conventions, outward normals, areas, window x/y/w/h/setback, shade corners; the overhang / fin shades of a window defined alone and together (each must not depend on the others); rotation covariance for every 5th building and every real project with theta in {15, 90, 123.4, 270, -30} (the turned deviation is written as it comes: above 360 or below 0) (+ one VERIF_SEED-derived angle, labelled sampling): positions turn clockwise by theta, azimuths shift by -theta, areas/volumes/K/n50 unchanged; SPACE-Vn walls of the real projects against the same reference (calibration: max distance reported for spaces without rotation); non-trivial = walls compared",
         true,
         json!({}),
     )
